@@ -6,4 +6,4 @@ import (
 	"verif/internal/harness"
 )
 
-func TestProps(t *testing.T) { harness.Main(t, "C18", WindowProp, ShardsProp, RouteProp, SeqProp) }
+func TestProps(t *testing.T) { harness.Main(t, "C18", WindowProp, ShardsProp, RouteProp, SeqProp, ReconfProp) }
